@@ -1,7 +1,7 @@
 (* C08 - in-block account deletion, creation and storage reset are seen correctly.
    This file contains only property theorems (closed by [exact]) and their assumption audit.
    Model: Flat/Model.v (src/incarnation_db.rs publish_writes / storage, src/account.rs). *)
-From Grevm Require Import Base.Util Flat.Model Flat.ProofsBase Flat.ProofsStorage Flat.ProofsBasic Flat.ProofsRead.
+From Grevm Require Import Base.Util Flat.Model Flat.ProofsBase Flat.ProofsStorage Flat.ProofsBasic Flat.ProofsRead Flat.ProofsAttempt.
 
 (* For every block of finalised per-transaction states (one entry per address in each), every
    reading transaction index t, address and slot: the flat read (newest reset marker vs newest slot
@@ -45,7 +45,37 @@ Theorem C08_storage_through_committed_prefix :
   Ok (s_stor (apply_all (sstate_of b) (firstn t effs)) a s).
 Proof. exact storage_committed_prefix. Qed.
 
+(* The whole incarnation (repaired code, fix 1f61367; finding F8). The scheduler validates one recorded
+   version per location, and an incarnation resolves several slots of an account against the account's
+   reset marker while writers publish concurrently. [run (step_new bk)] is the repaired
+   IncarnationDb::storage (the first recorded marker version is reused; [do_storage], which the
+   differential harness runs against the real code, is [step_new] with one memory). If every version of
+   the final read set still resolves at validation time, every slot value the incarnation read is the
+   value an execution against the validated memory reads. Each slot is read at most once (revm's journal
+   loads a slot from the database once per transaction). *)
+Theorem C08_attempt_reads_determined :
+  forall bk m' t inc (rs : list sread),
+  kinded m' ->
+  NoDup (map sr_slot rs) ->
+  mems_ok m' rs ->
+  (forall l v, In (l, v) (is_reads (fst (run (step_new bk) (begin_incarnation t inc) rs))) -> resolve m' l t = v) ->
+  snd (run (step_new bk) (begin_incarnation t inc) rs) = map (in_order_value m' bk t) rs.
+Proof. exact attempt_reads_determined. Qed.
+
+(* The same statement is FALSE of the code before the fix ([step_old]: the marker is looked up again for
+   every slot and the recorded version replaced): transaction 1 publishes its marker between the two
+   slot reads of transaction 2; every hypothesis holds, the read set validates, and slot 0 was read as 9
+   where the validated memory gives 0. Replayed on the real code: seeded/findings/C11-F8-unfixed-tree-replay.json *)
+Theorem C08_old_read_set_unsound_refuted :
+  kinded f8_m2 /\ NoDup (map sr_slot f8_reads) /\ mems_ok f8_m2 f8_reads /\
+  (forall l v, In (l, v) (is_reads (fst (run (step_old f8_bk) (begin_incarnation 2 1) f8_reads))) -> resolve f8_m2 l 2 = v) /\
+  snd (run (step_old f8_bk) (begin_incarnation 2 1) f8_reads) = [Ok 9%N; Ok 0%N] /\
+  map (in_order_value f8_m2 f8_bk 2) f8_reads = [Ok 0%N; Ok 0%N].
+Proof. exact old_read_set_unsound. Qed.
+
 Print Assumptions C08_flat_refines_struct.
+Print Assumptions C08_attempt_reads_determined.
+Print Assumptions C08_old_read_set_unsound_refuted.
 Print Assumptions C08_storage_through_committed_prefix.
 Print Assumptions C08_readset_determines_storage.
 Print Assumptions C08_publish_kinded.
